@@ -368,6 +368,12 @@ func (se *SpecEnv) ident(x *SIdent) (Value, types.Type) {
 			return v, t
 		}
 	}
+	// ghost variables
+	if se.pkg != nil {
+		if a := se.ex.ghostAddr(se.pkg, x.Name); a != nil {
+			return se.ex.loadAddr(se.cur, a), a.typ
+		}
+	}
 	// package scope
 	if se.pkg != nil {
 		if obj := se.pkg.Scope().Lookup(x.Name); obj != nil {
@@ -609,6 +615,36 @@ func (se *SpecEnv) callExpr(x *SCall) (Value, types.Type) {
 				se.fail(x, "unknown type %s", tn)
 			}
 			return And(Not(Eq(v, IntLit(0))), Eq(vc.TypeOf(v), vc.TypeTag(t))), boolT
+		case "fs_exists":
+			v, _ := se.evalTerm(x.Args[0])
+			return Select(se.ex.comp(se.cur, "GH.fs.exists", ArraySort(SStr, SBool)), v), boolT
+		case "fs_staterr":
+			v, _ := se.evalTerm(x.Args[0])
+			return Select(se.ex.comp(se.cur, "GH.fs.staterr", ArraySort(SStr, SBool)), v), boolT
+		case "fs_mode":
+			v, _ := se.evalTerm(x.Args[0])
+			return Select(se.ex.comp(se.cur, "GH.fs.mode", ArraySort(SStr, vc.IntSort())), v), se.ex.eng.parseType(se.ex.eng.typesPkg("os"), "FileMode")
+		case "fs_written":
+			v, _ := se.evalTerm(x.Args[0])
+			return Select(se.ex.comp(se.cur, "GH.fs.written", ArraySort(SStr, SBool)), v), boolT
+		case "fs_renames":
+			return se.ex.comp(se.cur, "GH.fs.renames", vc.IntSort()), types.Typ[types.Int]
+		case "fs_mkdirs":
+			return se.ex.comp(se.cur, "GH.fs.mkdirs", vc.IntSort()), types.Typ[types.Int]
+		case "fs_rename_from":
+			return se.ex.comp(se.cur, "GH.fs.renameFrom", SStr), types.Typ[types.String]
+		case "fs_rename_to":
+			return se.ex.comp(se.cur, "GH.fs.renameTo", SStr), types.Typ[types.String]
+		case "implements":
+			v, _ := se.evalTerm(x.Args[0])
+			tn := x.Args[1].spos()
+			t := se.ex.eng.parseType(se.pkg, tn)
+			if t == nil {
+				se.fail(x, "unknown type %s", tn)
+			}
+			name := "implements." + typeKey(types.Unalias(t))
+			vc.declare(name, fmt.Sprintf("(declare-fun %s (Int) Bool)", name))
+			return And(Not(Eq(v, IntLit(0))), App(name, SBool, vc.TypeOf(v))), boolT
 		case "abs":
 			v, t := se.evalTerm(x.Args[0])
 			return Ite(vc.Cmp(">=", v, se.materialize(&constVal{big.NewRat(0, 1)}, v, t), t), v, vc.Arith("-", se.materialize(&constVal{big.NewRat(0, 1)}, v, t), v, t)), t
@@ -1041,3 +1077,15 @@ func (ex *Exec) iterOfLoop(fr *frame, header *ssa.BasicBlock) string {
 }
 
 var _ = token.NoPos
+
+func (ex *Exec) ghostAddr(pkg *types.Package, name string) *Addr {
+	ts, ok := ex.eng.cs.Ghosts[pkg.Path()+"."+name]
+	if !ok {
+		return nil
+	}
+	t := ex.eng.parseType(pkg, ts)
+	if t == nil {
+		panic(specErr{"unknown type " + ts + " of ghost variable " + name})
+	}
+	return &Addr{comp: "GH." + sanitize(pkg.Path()) + "." + name, compSort: ex.vc.SortOf(t), typ: t}
+}
